@@ -35,23 +35,27 @@ Covers(off, len) == {p \in off..(off + len - 1) : p >= 0}
 Prefix(a) == CHOOSE n \in 0..Cardinality(a) : (\A p \in 0..(n-1) : p \in a) /\ n \notin a
 
 \* a chunk is a record [off |-> position of its first byte, b |-> its bytes]
-ChunkOK(c, a2, k2) ==
+\* (the ...B forms take the stream's byte function as an argument, for callers that track several streams)
+ChunkOKB(B(_), c, a2, k2) ==
     /\ c.off > k2                                              \* strictly above the delivery point
     /\ \A j \in 1..Len(c.b) : /\ (c.off + j - 1) \in a2        \* every held byte really arrived ...
-                              /\ c.b[j] = ByteAt(c.off + j - 1) \* ... and is the stream's byte
+                              /\ c.b[j] = B(c.off + j - 1)      \* ... and is the stream's byte
+ChunkOK(c, a2, k2) == ChunkOKB(ByteAt, c, a2, k2)
 SumLen(chunks) == LET RECURSIVE S(_)
                       S(cs) == IF cs = {} THEN 0 ELSE LET c == CHOOSE x \in cs : TRUE IN Len(c.b) + S(cs \ {c})
                   IN S(chunks)
 
 (* The step relation as a predicate over (old state, segment, new observation); used by the standalone
    spec below, by the refinement check of DataTrackerImpl and by the trace specification. *)
-ArriveOK(arrived0, k0, off, len, arrived2, k2, newBytes, chunks, rep) ==
+ArriveOKB(B(_), arrived0, k0, off, len, arrived2, k2, newBytes, chunks, rep) ==
     /\ arrived2 = arrived0 \cup Covers(off, len)
     /\ k2 = Prefix(arrived2)                                                \* prompt
-    /\ newBytes = [i \in 1..(k2 - k0) |-> ByteAt(k0 + i - 1)]              \* exactly the next bytes, once
-    /\ \A c \in chunks : ChunkOK(c, arrived2, k2)
+    /\ newBytes = [i \in 1..(k2 - k0) |-> B(k0 + i - 1)]                   \* exactly the next bytes, once
+    /\ \A c \in chunks : ChunkOKB(B, c, arrived2, k2)
     /\ \A c, d \in chunks : c.off = d.off => c = d                          \* chunks are identified by position
     /\ rep = SumLen(chunks)                                                  \* accounting
+ArriveOK(arrived0, k0, off, len, arrived2, k2, newBytes, chunks, rep) ==
+    ArriveOKB(ByteAt, arrived0, k0, off, len, arrived2, k2, newBytes, chunks, rep)
 
 VARIABLES arrived, k, delivered, buffered, reported
 avars == <<arrived, k, delivered, buffered, reported>>
